@@ -14,7 +14,43 @@ import random
 import time
 import traceback
 
+import signal
+
 from mc.loop import Divergence
+
+
+class WallTimeout(BaseException):
+    """One execution exceeded the wall-clock limit: code under test spins without yielding to the loop."""
+
+
+def _on_alarm(signum, frame):
+    raise WallTimeout()
+
+
+def with_wall_limit(fn, seconds):
+    """Run fn() under a wall-clock limit (SIGALRM).  The limit is ~100x a normal execution, so it only
+    fires for synchronous spinning that the controlled loop's step limit cannot see."""
+    if not seconds:
+        return fn()
+    old = signal.signal(signal.SIGALRM, _on_alarm)
+    signal.setitimer(signal.ITIMER_REAL, seconds)
+    dump = os.environ.get("VERIF_FAULTDUMP")
+    if dump:
+        import faulthandler
+
+        fh = open(f"{dump}.{os.getpid()}", "a")
+        faulthandler.dump_traceback_later(seconds + 20, file=fh)
+    try:
+        return fn()
+    finally:
+        signal.setitimer(signal.ITIMER_REAL, 0)
+        signal.signal(signal.SIGALRM, old)
+        if dump:
+            faulthandler.cancel_dump_traceback_later()
+            fh.close()
+
+
+WALL_LIMIT = float(os.environ.get("VERIF_EXEC_WALL_LIMIT", "60"))
 
 
 class Outcome:
@@ -109,7 +145,16 @@ def _subtree(task):
         pre = stack.pop()
         done += 1
         try:
-            out = _MODULE.run_case(params, pre)
+            out = with_wall_limit(lambda: _MODULE.run_case(params, pre), WALL_LIMIT)
+        except WallTimeout:
+            key = f"{getattr(_MODULE, 'PROP', '?')}|case={json.dumps(params, sort_keys=True, default=str)[:300]}|spin"
+            if key not in st._fkeys:
+                st._fkeys.add(key)
+                st.failures.append((case_idx, _dense(pre), key,
+                                    f"one execution did not finish within {WALL_LIMIT}s of wall-clock time: the code "
+                                    f"under test spins without yielding to the event loop"))
+            st.executions += 1
+            continue
         except Divergence as e:
             st.divergences += 1
             st.errors.append(f"divergence case={case_idx} prefix={_dense(pre)[-12:]}: {e}")
